@@ -368,9 +368,9 @@ func c08R4(p *core.Program, r *core.Report, pl *pipeline) {
 		if f == nil {
 			continue
 		}
-		for _, c := range core.CallsTo(f.Info(), f.Body, true, "path/filepath.Join") {
-			if len(c.Args) == 2 {
-				if s, ok := core.ConstString(f.Info(), c.Args[1]); ok {
+		for _, c := range core.CallsTo(f.Info(), f.Body, true, "os.ReadFile", "os.Open", "os.OpenFile", "os.Create", "os.WriteFile") {
+			if ops := joinOperands(p, f, c.Args[0]); len(ops) == 2 {
+				if s, ok := core.ConstString(ops[1].F.Info(), ops[1].E); ok {
 					names[fn+"="+s] = true
 				}
 			}
@@ -449,28 +449,93 @@ func c08R5(p *core.Program, r *core.Report) {
 		}
 	}
 	r.Check(okW, rule, bf, "writer: one `path hash` line per package, in sorted order", bf.Node().Pos(), "for k in Sorted(Keys(Data)): k, \" \", Data[k], \"\\n\"", why)
-	// reader
-	linfo := ld.Info()
-	lines := len(core.CallsTo(linfo, ld.Body, true, "bytes.Lines", "bytes.Split", "strings.Split", "(*bufio.Scanner).Scan")) > 0
-	fields := core.CallsTo(linfo, ld.Body, true, "bytes.Fields", "strings.Fields")
+	// reader: Load itself or a helper of pkg/sumfile it reaches
+	var rd *core.Func
+	var fields []*ast.CallExpr
+	for f := range reachableFrom(p, ld) {
+		if core.RelPkg(f.Pkg.PkgPath) != "pkg/sumfile" {
+			continue
+		}
+		if cs := core.CallsTo(f.Info(), f.Body, true, "bytes.Fields", "strings.Fields"); len(cs) > 0 {
+			fields = append(fields, cs...)
+			rd = f
+		}
+	}
 	okR := false
 	whyR := "the reader does not split lines and whitespace fields"
-	if lines && len(fields) == 1 {
-		g := graph(ld)
+	if rd != nil && len(fields) == 1 {
+		linfo := rd.Info()
+		lines := len(core.CallsTo(linfo, rd.Root().Body, true, "bytes.Lines", "bytes.Split", "strings.Split", "strings.Lines", "bytes.SplitSeq", "strings.SplitSeq", "(*bufio.Scanner).Scan")) > 0
+		if !lines {
+			whyR = "the reader does not split the file into lines"
+		}
+		g := graph(rd)
 		var parts *types.Var
 		if as, ok := g.PointOf(fields[0]).Node().(*ast.AssignStmt); ok {
 			parts = core.VarOf(linfo, as.Lhs[0])
 		}
-		ast.Inspect(ld.Body, func(n ast.Node) bool {
+		// the map that is filled: the Data field, or a local map that becomes Data
+		isData := func(e ast.Expr) bool {
+			if fld := core.FieldOf(linfo, e); fld != nil && fld.Name() == "Data" {
+				return true
+			}
+			v := core.VarOf(linfo, e)
+			if v == nil || !isMapType(v.Type()) {
+				return false
+			}
+			returned := false
+			ast.Inspect(rd.Body, func(n ast.Node) bool {
+				if ret, ok := n.(*ast.ReturnStmt); ok {
+					for _, res := range ret.Results {
+						if core.VarOf(linfo, res) == v {
+							returned = true
+						}
+					}
+				}
+				return true
+			})
+			if !returned || rd.Obj() == nil {
+				return false
+			}
+			// the helper's result is stored as Data by its caller
+			for _, cs := range allCalls(p) {
+				if core.CalleeFunc(cs.In.Info(), cs.Call) != rd.Obj() {
+					continue
+				}
+				cinfo := cs.In.Info()
+				found := false
+				ast.Inspect(cs.In.Root().Body, func(n ast.Node) bool {
+					switch x := n.(type) {
+					case *ast.KeyValueExpr:
+						if id, ok := x.Key.(*ast.Ident); ok && id.Name == "Data" {
+							if v, _ := core.Resolve(cinfo, cs.In.Root().Body, x.Value); ast.Unparen(v) == cs.Call {
+								found = true
+							}
+						}
+					case *ast.AssignStmt:
+						for i, l := range x.Lhs {
+							if fld := core.FieldOf(cinfo, l); fld != nil && fld.Name() == "Data" && i < len(x.Rhs) {
+								if v, _ := core.Resolve(cinfo, cs.In.Root().Body, x.Rhs[i]); ast.Unparen(v) == cs.Call {
+									found = true
+								}
+							}
+						}
+					}
+					return true
+				})
+				if found {
+					return true
+				}
+			}
+			return false
+		}
+		ast.Inspect(rd.Body, func(n ast.Node) bool {
 			as, ok := n.(*ast.AssignStmt)
-			if !ok || len(as.Lhs) != 1 {
+			if !ok || len(as.Lhs) != 1 || !lines {
 				return true
 			}
 			ix, ok := ast.Unparen(as.Lhs[0]).(*ast.IndexExpr)
-			if !ok {
-				return true
-			}
-			if fld := core.FieldOf(linfo, ix.X); fld == nil || fld.Name() != "Data" {
+			if !ok || !isData(ix.X) {
 				return true
 			}
 			// key = string(parts[0]), value = string(parts[1])
@@ -495,7 +560,7 @@ func c08R5(p *core.Program, r *core.Report) {
 		})
 		if okR {
 			sub := core.NewReport(r.Prog, "C08")
-			if n := a5Check(sub, "R5", ld); n > 0 {
+			if n := a5Check(sub, "R5", rd); n > 0 {
 				for _, o := range sub.Obls {
 					if o.Status == core.Violated {
 						okR, whyR = false, "field access without a length guard: "+o.Construct
